@@ -642,6 +642,7 @@ def run_case(case):
             g = letters("".join(g[:L]))
             check_random_layout(res, g, rng)
             res.count("random-layouts")
+            check_far_offset(res, g, rng)
         res.sample({"random_layout": g})
     elif kind == "fmap":
         rng = random.Random(case["seed"])
@@ -655,6 +656,66 @@ def run_case(case):
     elif kind == "one-pair":
         check_pair(res, case["p1"], case["p2"])
     return res
+
+
+def check_far_offset(res, g, rng):
+    """the same gap layout on a chromosome-sized sequence: a stretch of K residues (K around and beyond 2**31 / 2**32,
+    coordinates held in 64-bit arrays as parse_out_gaps produces them) is inserted at the start or just before one of
+    the gap runs; every answer behind the insertion point must be the near map's answer shifted by K"""
+    import numpy
+    from cogent3.core.location import IndelMap
+
+    rr = runs(g)
+    if not rr:
+        return
+    gap_pos, gap_len = [], []
+    for a, b in rr:
+        gap_pos.append(sum(1 for c in g[:a] if c != "-"))
+        gap_len.append(b - a)
+    nres = sum(1 for c in g if c != "-")
+    K = rng.choice([2**31 - 3, 2**31 + 10**8, 2**32 + 7, 2**33 + 11])
+    j = rng.randrange(len(rr))  # gaps j.. sit behind the inserted stretch
+    cut_seq = gap_pos[j] if j else 0  # sequence coordinate where the stretch is inserted (before residue cut_seq)
+    if j:
+        cut_seq = gap_pos[j - 1] + (gap_pos[j] - gap_pos[j - 1]) // 2 if gap_pos[j] > gap_pos[j - 1] else gap_pos[j]
+    cut_aln = rr[j][0] - (gap_pos[j] - cut_seq) if j else 0
+    detail = {"g": g, "K": K, "first_shifted_gap": j}
+
+    def decide(op, ok, **d):
+        res.evals += 1
+        res.count("op:far-offset/" + op)
+        if not ok:
+            res.witness(f"C08/far-offset/{op}", **dict(detail, **d))
+
+    try:
+        near = IndelMap(gap_pos=numpy.array(gap_pos, dtype=numpy.int64), gap_lengths=numpy.array(gap_len, dtype=numpy.int64), parent_length=nres)
+        far = IndelMap(gap_pos=numpy.array([p + (K if i >= j else 0) for i, p in enumerate(gap_pos)], dtype=numpy.int64), gap_lengths=numpy.array(gap_len, dtype=numpy.int64), parent_length=nres + K)
+        decide("len", len(far) == len(g) + K, got=len(far))
+        exp = [[a + (K if i >= j else 0), b + (K if i >= j else 0)] for i, (a, b) in enumerate(rr)]
+        got = [[int(x) for x in row] for row in far.get_gap_align_coordinates().tolist()]
+        decide("gap-runs", got == exp, got=got, exp=exp)
+        probes = sorted({x for a, b in rr for x in (a - 1, a, a + 1, b - 1, b, b + 1) if 0 <= x < len(g)})
+        for ai in probes:
+            far_ai = ai + (K if ai >= cut_aln else 0)
+            small = near.get_seq_index(ai)
+            exp_ = small + (K if ai >= cut_aln else 0)
+            decide("get_seq_index", int(far.get_seq_index(far_ai)) == exp_, ai=ai, got=int(far.get_seq_index(far_ai)), exp=exp_)
+        for si in sorted({x for p_ in gap_pos for x in (p_ - 1, p_, p_ + 1) if 0 <= x < nres}):
+            far_si = si + (K if si >= cut_seq else 0)
+            exp_ = int(near.get_align_index(si)) + (K if si >= cut_seq else 0)
+            decide("get_align_index", int(far.get_align_index(far_si)) == exp_, si=si, got=int(far.get_align_index(far_si)), exp=exp_)
+        behind = [x for x in probes if x >= cut_aln] + [len(g)]
+        for _ in range(6):
+            if len(behind) < 2:
+                break
+            a, b = sorted(rng.sample(behind, 2))
+            small, big = near[a:b], far[a + K : b + K]
+            decide("slice", len(big) == len(small) == b - a and big.parent_length == small.parent_length and [list(map(int, x)) for x in big.get_gap_coordinates()] == [list(map(int, x)) for x in small.get_gap_coordinates()], ab=(a, b), got=[list(map(int, x)) for x in big.get_gap_coordinates()], exp=[list(map(int, x)) for x in small.get_gap_coordinates()])
+        res.sig("far-offset", K.bit_length(), j == 0, len(rr) > 2)
+        res.count("far-offset-layouts")
+    except Exception as e:  # noqa: BLE001
+        res.evals += 1
+        res.witness(exc_mechanism("C08/far-offset", e), error=repr(e)[:200], **detail)
 
 
 def check_random_layout(res, g, rng):
